@@ -483,8 +483,16 @@ def call(ex, n, st, q, rd, objn, argn, method, want_lv):
     return NOMODEL
 
 
-def swap_regions(ex, st, r1, r2):
+def swap_regions(ex, st, r1, r2, cls=None):
     keys = set(k[1] for k in st.arr if k[0] in (r1, r2))
+    if cls is not None:
+        # leaves of the element type that nobody has looked at yet are exchanged as well
+        try:
+            for lf, lct in container_leaves(cls):
+                keys.add(lf)
+                st.leafct.setdefault((r1, lf), lct)
+        except Exception:
+            pass
     for leaf in keys:
         ct = st.leafct.get((r1, leaf)) or st.leafct.get((r2, leaf))
         a, b = st.array(r1, leaf, ct), st.array(r2, leaf, ct)
@@ -772,7 +780,7 @@ def algo_call(ex, n, st, name, argn):
             return VoidV()
         a, b = [ex.ev_obj(x, st) for x in argn]
         if isinstance(a, ObjRef) and isinstance(b, ObjRef) and class_kind(a.cls) in ('marray', 'vector'):
-            swap_regions(ex, st, a.name, b.name)
+            swap_regions(ex, st, a.name, b.name, a.cls)
             return VoidV()
         raise ExtractionError(f'std::swap of {a},{b}')
     return NOMODEL
